@@ -1,6 +1,7 @@
-(* Refuted statements: the hypotheses of the C04 theorems cannot be dropped, and the unrestricted
-   property fails on the model exactly as it does on /repo (witnesses = corpus/C04/F*.json, replayed on
-   the implementation on every run).  All by evaluation. *)
+(* Refuted statements: what is still FALSE of /repo (witnesses = corpus/C04, replayed on the
+   implementation on every run).  The statements refuted here earlier for findings FA, FA2, FB, FC, FC2, FD
+   (load), FE, FF, FH, FI were repaired in /repo (17757a8, be1cb9f, cd7cd87, b0287db, 84d7416, 0f42ab1,
+   402c33a) and are now THEOREMS (see Props/C04.v); their witnesses stay in corpus/C04 as regression cases. *)
 From Coq Require Import ZArith Bool List.
 Import ListNotations.
 From Verif Require Import Model.Val Model.Res Model.Worker.
@@ -8,91 +9,27 @@ Open Scope Z_scope.
 
 Definition any0 : rvec := [((0, RAny), 1)].
 Definition s_plain : strategy := mkStrat 0 false any0 2 5.
-Definition s_batch : strategy := mkStrat 1 true any0 2 5.
 
-(* FA: without freshness a resource is held although nothing is resident *)
-Lemma replace_resident_refuted :
-  exists id v ops, let w := w_run ops (w_new id v) in w_placed w = [] /\ r_allocs (w_res w) <> [].
-Proof.
-  exists 0, [((0, RId 0), 2)], [WPlace 0 s_plain; WPlace 0 s_batch; WRemove 0].
-  vm_compute. split; [reflexivity|discriminate].
-Qed.
-(* FA2: a task resident on a worker of a pool that no longer knows it *)
-Lemma replace_resident_pool_refuted :
-  exists P ops, let P' := p_run ops P in
-    p_placed P' = [] /\ exists W, In W (p_workers P') /\ w_placed W <> [].
-Proof.
-  exists (p_new 0 [w_new 0 [((0, RId 0), 1)]; w_new 1 [((0, RId 0), 1)]]),
-         [PPlace 0 [s_plain] (Some s_plain) None; PPlace 0 [s_plain] (Some s_plain) None; PRemove 0].
-  vm_compute. split; [reflexivity|]. eexists. split; [left; reflexivity|discriminate].
-Qed.
-(* FB: a resident task whose request recorded nothing cannot be removed *)
-Lemma empty_request_refuted :
-  exists id v t s, let w := fst (w_place t s (w_new id v)) in
-    snd (w_place t s (w_new id v)) = Ok tt /\ snd (w_remove t w) = Err E_VALUE /\ w_placed (fst (w_remove t w)) <> [].
-Proof.
-  exists 0, [((0, RId 0), 2)], 0, (mkStrat 0 false [] 2 5). vm_compute. repeat split; discriminate.
-Qed.
-(* FC: with an `any` cell and specific cells of one name, copy raises on a reachable state ... *)
-Lemma copy_mixed_vector_refuted :
-  exists v ops, r_copy (r_run ops (r_new v)) = Err E_VALUE.
-Proof.
-  exists [((0, RId 0), 1); ((0, RAny), 1); ((0, RId 1), 1)],
-         [RAllocate (0, RAny) (CTask 0) 2; RAllocate (0, RId 1) (CTask 1) 1; RDeallocate (CTask 0);
-          RAllocate (0, RId 2) (CTask 2) 1; RAllocate (0, RId 0) (CBatch 0) 1].
-  vm_compute. reflexivity.
-Qed.
-(* ... or answers a getter differently from its original *)
-Lemma copy_mixed_vector_getters_refuted :
-  exists v ops R' r, let R := r_run ops (r_new v) in r_copy R = Ok R' /\ r_available R' r <> r_available R r.
-Proof.
-  exists [((0, RAny), 1); ((0, RId 0), 1)],
-         [RAllocate (0, RAny) (CTask 0) 1; RAllocate (0, RId 0) (CTask 1) 1; RDeallocate (CTask 0)].
-  eexists. exists (0, RId 1). vm_compute. split; [reflexivity|discriminate].
-Qed.
-(* FD: a refused pool-wide load changes the pool *)
-Lemma pool_wide_load_refuted :
-  exists P p s P' e, p_load p s None P = (P', Err e) /\ P' <> P.
-Proof.
-  exists (p_new 0 [w_new 0 [((0, RId 0), 1)]; w_new 1 [((0, RId 0), 0)]]), 0, s_plain.
-  eexists. eexists. vm_compute. split; [reflexivity|discriminate].
-Qed.
-(* FE: stepping a copy changes its original (shared loading-strategy object) *)
-Lemma timer_aliasing_refuted :
-  exists objs cs c, let W := fst (fold_left (fun Wc c => world_step (fst Wc) c) cs (mkWorld objs 1000000, 0)) in
-    nth_error (wo_objs (fst (world_step W c))) 0 <> nth_error (wo_objs W) 0 /\
-    match c with CWorker i _ => i <> O | _ => False end.
-Proof.
-  exists [OWorker (w_new 0 [((0, RId 0), 1)])], [CWorker 0 (WLoad 0 s_plain); CCopy 0], (CWorker 1 (WStep 3)).
-  vm_compute. split; discriminate.
-Qed.
-(* FF: the copy of a worker forgets its batches *)
-Lemma copy_drops_batch_refuted :
-  exists id v t s w', let w := fst (w_place t s (w_new id v)) in
-    w_copy w = Ok w' /\ w_fits s w = true /\ w_fits s w' = false.
-Proof.
-  exists 0, [((0, RId 0), 1)], 0, (mkStrat 1 true any0 3 5). eexists. vm_compute. repeat split; reflexivity.
-Qed.
-(* FG: loading an available profile again, then evicting: a pending profile that holds nothing *)
+(* FG (not repaired): loading an available profile again, then evicting: a pending profile that holds nothing *)
 Lemma double_load_refuted :
   exists id v ops, let w := w_run ops (w_new id v) in w_pend_prof w <> [] /\ r_allocs (w_res w) = [].
 Proof.
   exists 0, [((0, RId 0), 2)], [WLoad 0 (mkStrat 0 false any0 2 1); WStep 1; WLoad 0 (mkStrat 0 false any0 2 1); WEvict 0].
   vm_compute. split; [discriminate|reflexivity].
 Qed.
-(* FH: negative quantities break `available >= 0` *)
-Lemma negative_quantity_refuted :
-  exists v ops k q, In (k, q) (r_avail (r_run ops (r_new v))) /\ q < 0.
+(* FD2 (evict_profile was not repaired): a refused pool-wide evict changes the pool *)
+Lemma pool_wide_evict_refuted :
+  exists P p P' e, p_evict p None P = (P', Err e) /\ P' <> P.
 Proof.
-  exists [((0, RId 0), 1)], [RAllocate (0, RAny) (CTask 0) (-1); RAllocate (0, RAny) (CTask 1) 2; RDeallocate (CTask 0)].
-  eexists. eexists. vm_compute. split; [left; reflexivity|reflexivity].
+  exists (fst (p_load 0 s_plain (Some 0) (p_new 0 [w_new 0 [((0, RId 0), 1)]; w_new 1 [((0, RId 0), 1)]]))), 0.
+  eexists. eexists. vm_compute. split; [reflexivity|discriminate].
 Qed.
-(* the refusal theorem needs "no empty entry": an entry created by the getter get_allocated_resources
-   disappears when an allocate_multiple for the same computation is refused *)
-Lemma refusal_empty_entry_refuted :
-  exists R req c R' e, r_allocate_multiple R req c = (R', Err e) /\ R' <> R.
+(* a loading strategy that is a registered BatchStrategy passes the pre-check of the pool-wide load on a
+   full worker (can_accomodate_strategy is True for a placed batch) and is then refused half-way *)
+Lemma pool_load_batch_strategy_refuted :
+  exists P p s P' e, p_load p s None P = (P', Err e) /\ P' <> P.
 Proof.
-  exists (fst (r_get_allocated_resources (r_new [((0, RId 0), 1); ((0, RId 1), 1)]) (CTask 0))),
-         [((0, RAny), 1); ((0, RId 0), 1); ((0, RId 1), 1)], (CTask 0).
+  exists (fst (p_place 0 [] (Some (mkStrat 1 true any0 2 5)) (Some 1)
+                (p_new 0 [w_new 0 [((0, RId 0), 2)]; w_new 1 [((0, RId 0), 1)]]))), 0, (mkStrat 1 true any0 2 5).
   eexists. eexists. vm_compute. split; [reflexivity|discriminate].
 Qed.
